@@ -76,7 +76,8 @@ def check_handwritten_serde(ctx, P, rule="E9.handserde"):
         if sb is None or db is None:
             ctx.ob(rule, sk, False, "serializer/deserializer pair does not branch on is_human_readable on both sides", where=where(sf))
             continue
-        ok_hr = hr_want[0] in sb[0] and hr_want[1] in db[0]
+        fam = lambda want, got: want in got or (want.startswith("hex::") and any(x.startswith("hex::") for x in got))
+        ok_hr = fam(hr_want[0], sb[0]) and fam(hr_want[1], db[0])
         ok_bin = bin_want[0] in sb[1] and bin_want[1] in db[1]
         ctx.ob(rule, sk.split(" as ")[0].lstrip("<"), ok_hr and ok_bin, "human-readable: %s <-> %s ; binary: %s <-> %s" % ([x for x in sb[0] if "is_human" not in x][:3], [x for x in db[0] if "is_human" not in x][:3], sb[1][:3], db[1][:3]), where=where(sf))
         # the scalar types used in the binary branch agree (u8 <-> u8, String <-> str)
@@ -136,3 +137,38 @@ def check_enum_key_wrapper(ctx, P, rule="E9.keywrapper"):
             continue
         n = SP.check_reader_totality(ctx, rule, P, f, "SecretKeyEnum", ["Bls12381"], allow_default=True)
         ctx.ob(rule + ".anchor", fk, n >= 2, "%d curve tags read by %s" % (n, fk), where=where(f))
+
+
+def check_fixed_hex_reader(ctx, P, rule="E9.fixed-hex"):
+    """The human-readable reader of the fixed-size byte containers accepts exactly N bytes: the hex text is decoded
+    straight into the whole N-byte array (`hex::decode_to_slice`, which refuses any other length), or the decoded
+    length is compared for equality with N before a value is produced."""
+    from ..core import guards as G
+    from . import guardrules as R
+
+    fk = "<[u8; N] as BigArray<'de>>::deserialize"
+    f = ctx.need_fn(rule, fk, P)
+    if f is None:
+        return
+    ev = evaluate(f)
+    d2s = [s_ for s_ in ev.sites.values() if s_.callee[0] == "hex::decode_to_slice"]
+    dec = [s_ for s_ in ev.sites.values() if s_.callee[0] in ("hex::decode", "FromHex::from_hex")]
+    if d2s:
+        dst = B.peel(d2s[0].args[1])
+        whole = not (dst.op == "call" and B.cname(dst) in ("IndexMut::index_mut", "Index::index"))
+        ctx.ob(rule, fk, whole, "hex text is decoded into %s (decode_to_slice refuses any length but the destination's)" % ("the whole N-byte array" if whole else "a sub-slice of the array: " + show(strip_sites(dst), 3)), where=where(f, d2s[0].bb))
+        return
+    if dec:
+        ok = False
+        seen = []
+        for b, lits in R.ok_exits(P, f, ev):
+            hrlits = [(a, p) for a, p in lits if a[1] == "cmp"]
+            for a, p in hrlits:
+                op = a[2] if p else R._NEG[a[2]]
+                seen.append("%s %s %s" % (show(a[3], 3), op, show(a[4], 3)))
+                if op == "Eq" and any(x.op == "call" and B.cname(x) in ("hex::decode", "FromHex::from_hex") for x in subterms(a[3]) | subterms(a[4])):
+                    ok = True
+        conv = any(s_.callee[0] == "TryFrom::try_from" and s_.callee[1] and s_.callee[1][0].startswith("[u8;") for s_ in ev.sites.values())
+        ctx.ob(rule, fk, ok or conv, "decoded hex length is forced to equal N before a value is produced (conditions seen: %s)" % (seen[:4] or "none"), where=where(f, dec[0].bb))
+        return
+    ctx.ob(rule + ".anchor", fk, False, "no hex decoding found in the human-readable branch", where=where(f))
